@@ -92,6 +92,8 @@ class View:
     def __init__(self, it, state: Obj):
         self.f = {}
         for name, kind in FIELDS.items():
+            if name not in state.fields:
+                raise Unsupported(f"_RetryState no longer has the field {name!r} the sidecar contracts are written over (representation changed)")
             v = state.fields[name]
             if kind == "int":
                 self.f[name] = term(v)
@@ -191,3 +193,20 @@ def wf_state(it, st: Obj):
         conj.append(z3.Implies(z3.And(z3.Not(cause_none), cause == z3.StringVal("result")), v.none("last_exc")))
     conj.append(z3.Implies(cause_none, z3.And(v.none("last_exc"), v.none("last_result"))))
     return z3.And(conj)
+
+
+def fresh_ctx(it, attempt, classification=None, cause=None, prefix="ctx"):
+    """a BackoffContext whose optional fields are arbitrary (nothing but the attempt number is known about it)"""
+    ci = it.tree.cls("redress.strategies:BackoffContext")
+    if classification is None:
+        cci = it.tree.cls("redress.classify:Classification")
+        classification = Obj(cci, {"klass": it.fresh_enum(enum_ci(it, "ErrorClass"), prefix + "_klass"),
+                                   "retry_after_s": fopt(prefix + "_ra", fxfloat(prefix + "_ra")), "details": fref(prefix + "_details")},
+                             frozen=True, ident=z3.Int(fresh_name(prefix + "_cls_id")))
+    if cause is None:
+        cause = fstr(prefix + "_cause")
+        it.path.assume(z3.Or(cause.t == z3.StringVal("exception"), cause.t == z3.StringVal("result")))
+    ps, rem = freal(prefix + "_prev_sleep"), freal(prefix + "_remaining")
+    it.path.assume(z3.And(ps.t >= 0, rem.t >= 0))
+    return Obj(ci, {"attempt": attempt, "classification": classification, "prev_sleep_s": fopt(prefix + "_prev_sleep", ps),
+                    "remaining_s": fopt(prefix + "_remaining", rem), "cause": cause}, frozen=True, ident=z3.Int(fresh_name(prefix)))
